@@ -59,6 +59,13 @@ input P {
   c: [Int!]
 }
 
+input Rng {
+  from: Int!
+  to: Int!
+  step: Int = 1
+  tags: [String!]!
+}
+
 type Query {
   node: Node
   nodes: [Node!]
@@ -79,6 +86,7 @@ type Query {
   alist: [A]
   named: Named
   nameds: [Named]
+  span(r: Rng, rs: [Rng!]): Int
 }
 
 type Mutation {
